@@ -26,9 +26,9 @@ def run(props=None, timeout=7200):
         if props is None or os.path.basename(f)[:-3] in props:
             mods.append(m)
     t0 = time.time()
-    with core.Lock("coq"):
-        rc, out, secs = core.sh(["timeout", str(timeout), "coqchk", "-silent", "-o", "-Q", "theories", "Shm"] + mods,
-                                cwd=core.COQ, timeout=timeout + 60)
+    # coqchk only reads the .vo files: do not hold the build lock (it runs for many minutes)
+    rc, out, secs = core.sh(["timeout", str(timeout), "coqchk", "-silent", "-o", "-Q", "theories", "Shm"] + mods,
+                            cwd=core.COQ, timeout=timeout + 60)
     axioms = re.findall(r"^\s*\*?\s*([A-Za-z_][\w.']*)\s*:", out.split("Axioms:")[-1], re.M) if "Axioms:" in out else []
     r = {"ok": rc == 0, "modules": mods, "axioms": axioms, "log_tail": out[-3000:], "secs": round(time.time() - t0, 1), "cached": False}
     if rc == 0:
